@@ -153,6 +153,12 @@ class C16(Monitor):
                 if rnd.random() < 0.15 and sweep is not None:
                     # the very same arguments again from a (slightly) different start point: a different circle
                     items.append(dict(t="repeat", dx=rnd.choice([0.5, -1.0, 2.0, 0.0]), dy=rnd.choice([0.25, 1.0, -2.0])))
+            elif t < 0.6:
+                # two arcs through the real handler with nothing but a unit switch (or nothing at all) in between
+                items.append(dict(t="chain", sx=round(rnd.uniform(-100, 100), 2), sy=round(rnd.uniform(-100, 100), 2),
+                                  inch0=rnd.random() < 0.5, switch=rnd.random() < 0.7,
+                                  arcs=[dict(r=rnd.uniform(2, 40), a0=rnd.uniform(0, TWO_PI), sweep=rnd.uniform(0.3, 5.5),
+                                             cw=rnd.random() < 0.5) for _ in range(2)]))
             elif t < 0.85:
                 kind = rnd.random()
                 ex, ey = sx + round(rnd.uniform(-40, 40), 3), sy + round(rnd.uniform(-40, 40), 3)
@@ -217,6 +223,8 @@ class C16(Monitor):
                 self.check_plan(it, stats, v, nt)
             elif it["t"] == "repeat":
                 self.check_repeat(it, stats, v)
+            elif it["t"] == "chain":
+                self.check_chain(it, stats, v)
             elif it["t"] == "centre":
                 self.check_centre_item(it, stats, v, nt)
             elif it["t"] == "cross":
@@ -274,6 +282,38 @@ class C16(Monitor):
         if con.last and con.last["n"] > 3 and len(con.failures) == nf:
             nt.append(digest(it))
             stats["points_checked_arcs_gt3"] += 1
+
+    def check_chain(self, it, stats, v):
+        core = Core([], {})
+        con = ArcContract(core.handlers)
+        core.gcode("G28")
+        inch = it["inch0"]
+        core.gcode("G20" if inch else "G21")
+        unit = 25.4 if inch else 1.0
+        core.gcode("G0 X%s Y%s" % (plain(it["sx"] / unit), plain(it["sy"] / unit)))
+        for n, arc in enumerate(it["arcs"]):
+            if n == 1 and it["switch"]:
+                inch = not inch
+                core.gcode("G20" if inch else "G21")
+            pos = core.state.position
+            x, y = pos.X_AXIS.nativeToLogical(), pos.Y_AXIS.nativeToLogical()
+            r = arc["r"] / (25.4 if inch else 1.0) * (25.4 if inch else 1.0) / (25.4 if inch else 1.0) if inch else arc["r"]
+            cx, cy = x - r * math.cos(arc["a0"]), y - r * math.sin(arc["a0"])
+            a1 = arc["a0"] - arc["sweep"] if arc["cw"] else arc["a0"] + arc["sweep"]
+            ex, ey = cx + r * math.cos(a1), cy + r * math.sin(a1)
+            cmd = "%s X%s Y%s I%s J%s" % ("G2" if arc["cw"] else "G3", plain(ex, 7), plain(ey, 7), plain(cx - x, 7), plain(cy - y, 7))
+            nf, nc = len(con.failures), con.calls
+            try:
+                core.gcode(cmd)
+            except Exception as exc:  # noqa: B902
+                v.append(dict(kind="exception", idx=-1, cmd=cmd, detail=repr(exc), mechanism=None))
+                return
+            if con.calls > nc:
+                stats["planarc_contract_evaluations"] += 1
+                stats["planarc_chained"] += 1
+            for msg in con.failures[nf:]:
+                v.append(dict(kind="arc-sampling", idx=-1, cmd="chained arc %d: %s (units %s)" % (n + 1, cmd, "inch" if inch else "mm"),
+                              detail=msg, mechanism=None))
 
     def check_repeat(self, it, stats, v):
         last = getattr(self, "last_plan", None)
